@@ -240,7 +240,7 @@ func main() {
 			tpl = append(tpl, t.ctx+": "+strings.TrimPrefix((&Program{Ctx: t.ctx, Hole: t.hole()}).Source(), "["+t.ctx+"] ")+" ["+t.id+"]")
 		}
 		out.Encode(map[string]any{"functions": fns, "contexts": contextOrder, "relevant_contexts": relevantContexts,
-			"dangling_templates": tpl, "referred_type_kinds": refKindInfo(), "menus": map[string]int{"string": len(strMenu), "int": len(intMenu), "func": len(funcMenu), "any": len(menuFor(anyType()))}})
+			"dangling_templates": tpl, "referred_type_kinds": refKindInfo(), "requirement_credential_family": credInfo(), "menus": map[string]int{"string": len(strMenu), "int": len(intMenu), "func": len(funcMenu), "any": len(menuFor(anyType()))}})
 	case "blocks":
 		out.Encode(familyByName(*fam, sel))
 	case "serve":
